@@ -10,29 +10,44 @@ CHECKS = {
                 "control/data-flow clauses of C02, not the MAC arithmetic (that a changed bit changes the tag).",
     },
     "C03": {
-        "engine": "PathAI (E1) + call graph (E2)",
-        "technique": "must-pass-through analysis of the misuse guard + who-may-call on the unguarded entry points",
+        "engine": "PathAI (E1) + call graph (E2) + SSA dependence cones (E6b)",
+        "technique": "must-pass-through analysis of the misuse guard + who-may-call on the unguarded entry points + data/control "
+                     "dependence analysis of the 64-bit block counter words in every stream backend",
         "text": "Static, for all (ic, length): every path of crypto_stream_chacha20_ietf_xor_ic to the backend crosses a guard whose condition "
                 "depends on both ic and mlen and whose refusing arm cannot return (sodium_misuse); the counter-0 IETF forms reach the backend "
                 "only with length <= the header MESSAGEBYTES_MAX; the unguarded extended-counter functions are called only from these and "
-                "from XChaCha20-Poly1305. This is the one clause of C03 visible in the code's shape; keystream bytes, SIMD counter carries, "
-                "offset equivalence and the arithmetic of the guard threshold are not decided.",
+                "from XChaCha20-Poly1305; the guard threshold is bound to the counter it protects (R3.1-bind). Carry of the 64-bit block counter "
+                "(R3.2): in every compiled ChaCha20 / Salsa20 backend (counter words read from the backend's own ivsetup) each write-back of "
+                "the high counter word depends - by data or control - on the low word, and no vector operation mixes a value derived from "
+                "the high word alone into the cipher state (lanes are consecutive blocks). No lost block (R3.3): on every returning path of every "
+                "stream backend, data written into a local bounce buffer is read again before the return; no carry in the stream units is "
+                "identically zero (R3.4) and the byte-wise counters of the portable Salsa20 family carry continuously (R3.5). Keystream bytes, the per-lane arithmetic, offset "
+                "equivalence, the byte-wise counter of the portable Salsa20 reference and the arithmetic of the guard threshold are not decided.",
     },
     "C04": {
-        "engine": "PathAI (E1)",
-        "technique": "interval analysis from branch facts vs header constants; checklist path analysis of MAC verification",
+        "engine": "PathAI (E1) + known-bits (E12)",
+        "technique": "interval analysis from branch facts vs header constants; checklist path analysis of MAC verification; "
+                     "known-zero-bits abstract interpretation of the limb arithmetic",
         "text": "Static, for all inputs: every success exit and every hand-over to the BLAKE2b/HMAC core of the generic-hash, BLAKE2b, KDF and "
                 "HKDF entry points has its output/key/subkey lengths inside the public header limits (R4.1); each MAC verify function returns 0 "
                 "only after recomputing the tag over the caller's (in, inlen, k) and a full-length constant-time comparison with the caller's "
-                "tag, incl. every dispatch target of the generic front ends (R4.2). Digest values, chunking associativity, Poly1305 carries "
-                "and HKDF chaining are not decided.",
+                "tag, incl. every dispatch target of the generic front ends (R4.2); in the Poly1305 units no right shift / mask of a non-literal "
+                "value is identically zero (R4.4, known-bits: a limb masked to k bits before `>> k` reads its carry cuts the carry chain and "
+                "makes the final reduction dead), and branch-free selects choose between a value and the value computed from it (R4.5). Digest values, chunking associativity, the values of the Poly1305 carries and HKDF chaining "
+                "are not decided.",
     },
     "C05": {
-        "engine": "PathAI (E1) + scalar-evolution byte coverage (E9)",
-        "technique": "path-sensitive must-check analysis over all dispatch targets + loop add-recurrence / exact trip-count coverage",
+        "engine": "PathAI (E1) + scalar-evolution byte coverage (E9) + sibling cross-check",
+        "technique": "path-sensitive must-check analysis over all dispatch targets + loop add-recurrence / exact trip-count coverage + "
+                     "per-mode byte-provenance of the key-exchange outputs cross-checked between client and server + read-before-write ordering",
         "text": "Static, for all inputs and every ladder the dispatch slot can hold: crypto_scalarmult_curve25519 reports success only if the "
                 "ladder returned 0 and the status is computed from an accumulator over exactly bytes [0, 32) of the output with no early exit "
-                "(the only failure report for the assembly ladder). RFC 7748 values, clamping, kx/box cross-equality are not decided.",
+                "(the only failure report for the assembly ladder) (R5.1). Key exchange (R5.2): for every NULL / non-NULL combination of (rx, tx) "
+                "both session-key functions either fail with nothing written or hash exactly (q, client_pk, server_pk) with q = X25519(own sk, "
+                "peer pk) into 64 bytes, fill each supplied buffer from one half, and the halves are crossed (client rx = server tx, client tx = "
+                "server rx) in every mode against every mode - this reports the genuine defect F4 (single-key mode returns the wrong half; "
+                "listed in known_findings.txt). In-place calls (R5.3): every ladder entry reads scalar and point completely before the first "
+                "write through the output. RFC 7748 values, clamping arithmetic and hash values are not decided.",
     },
     "C06": {
         "engine": "PathAI (E1) + call-graph effects (E2)",
@@ -44,13 +59,19 @@ CHECKS = {
                 "arithmetic are not decided.",
     },
     "C07": {
-        "engine": "PathAI (E1) + dependence (E6)",
-        "technique": "path-sensitive checklist analysis + data-dependence slice of predicate results on point coordinates",
+        "engine": "PathAI (E1) + dependence (E6) + bit-flow (E11)",
+        "technique": "path-sensitive checklist analysis + data-dependence slice of predicate results on point coordinates + "
+                     "bit-mask taint of every input bit of the canonical-form predicates on the -O2 IR",
         "text": "Static, for all inputs: every success/accepting exit of the Ed25519/Ristretto255 point APIs holds the necessary "
                 "decode/canonical/small-order/main-subgroup checks on the right operands (R7.1); scalar multiplications succeed only after "
                 "the identity test on the encoded result (R7.2); the subgroup/small-order/on-curve predicates' results depend on every "
                 "coordinate they must read (R7.3; reports the genuine defect F1, listed in known_findings.txt); every hash-to-group path "
-                "clears the cofactor before encoding and the raw Elligator map is only reachable from such functions (R7.4). Field/scalar "
+                "clears the cofactor before encoding and the raw Elligator map is only reachable from such functions (R7.4); the inversion guard "
+                "covers the inverted denominator (R7.5); ge25519_is_canonical's verdict cannot depend on bit 255 (the sign of x) and can depend on "
+                "each of the other 255 bits, ristretto255_is_canonical, sc25519_is_canonical and the point decoders on all 256 (R7.6); the scalar "
+                "arithmetic APIs hand out results whose last writer reduces modulo L (R7.7); no carry in the field / scalar / X25519 limb code is "
+                "identically zero (R7.8, known-bits, one confirmed exception) and cmov/cswap-style selects choose between the two values they mix "
+                "(R7.9). Field/scalar "
                 "arithmetic exactness and RFC vectors are not decided.",
     },
     "C08": {
@@ -61,7 +82,9 @@ CHECKS = {
                 "scrypt: outlen, passwdlen - its cost parameters are mapped, not limited, by design); generic dispatchers only forward arguments to limit-checked "
                 "functions; both low-level scrypt backends establish N power of two in [2,2^32-1], r,p != 0, r*p < 2^30 and agree on all "
                 "guards; needs_rehash returns exactly -1/0/1, answers 0/1 only after successful decoding, 0 only with an equality fact per "
-                "compared parameter. Hash outputs and the string grammar are not decided.",
+                "compared parameter, and - for Argon2 strings - only if the decoded parameters passed argon2_validate_inputs() (R8.2-valid); the SIMD "
+                "Argon2 address generators hand a freshly zero-filled block to the in-place compression function at every use (R8.4); parsed "
+                "decimals are narrowed only after they were shown to fit (R8.3). Hash outputs and the rest of the string grammar are not decided.",
     },
     "C09": {
         "engine": "PathAI (E1) + sibling agreement (E7)",
@@ -72,14 +95,16 @@ CHECKS = {
                 "agree (R9.2); short input refused, *mlen_p = 0 on failure (R9.3). Whole-history delivery/ordering is not decided.",
     },
     "C10": {
-        "engine": "ISA-feature / dispatch consistency (E4) + PathAI (E1) + call graph (E2)",
+        "engine": "ISA-feature / dispatch consistency (E4) + PathAI (E1) + call graph (E2) + known-bits (E12)",
         "technique": "effect analysis of compiler target-features against the runtime-feature guards of every backend selection site",
         "text": "Static, for every CPU-feature subset: each backend function or vtable is selected (stored into a dispatch slot or called "
                 "through a conditionally chosen symbol) only under sodium_runtime_has_* tests whose compiler-reported feature closure "
                 "covers everything the selected code transitively requires; direct calls into higher-ISA code are guarded; every vtable "
                 "slot that is called is non-NULL wherever it can be read; public ISA-specific functions exist only in the AES-NI AES-GCM "
                 "unit, whose is_available is exactly the conjunction of the flags its code needs; has_avx/avx2/avx512f are set only under "
-                "the CPUID bit test, the XGETBV OS-state test and the next-lower flag. These are necessary conditions; byte-identity of "
+                "the CPUID bit test, the XGETBV OS-state test and the next-lower flag; in the limb code of every alternative backend no carry is "
+                "identically zero and no branch-free select mixes unrelated values (R10.4: the defect shapes that make one backend differ from "
+                "its siblings only for inputs of probability ~2^-128). These are necessary conditions; byte-identity of "
                 "results across backends/configurations is NOT decided.",
     },
     "C11": {
@@ -91,28 +116,38 @@ CHECKS = {
                 "encoding, unpadding) and 7 multi-part API sequences, through every C backend a dispatch slot can select (one consistent "
                 "combination at a time), no branch/switch condition, load/store address component, memcpy/memset length, variable-time "
                 "libc call or asm conditional jump depends on a secret; status results named by the property are declassified at their "
-                "producing call. The thorough tier repeats this on the portable configuration (no asm/SIMD/128-bit integers). Machine-code "
+                "producing call (the all-zero test only inside the four scalar multiplications whose error status it is). The thorough tier repeats this on the portable configuration (no asm/SIMD/128-bit integers). Machine-code "
                 "effects of instruction selection and the assembly units are NOT decided.",
         "note": "Two documented variable-time functions are positive controls on every run.",
     },
     "C12": {
         "engine": "PathAI (E1, intervals with backward refinement) + alignment contract (E5)",
-        "technique": "interval analysis with call-graph delegation for documented length limits; alignment-contract analysis of vector accesses",
+        "technique": "interval analysis with call-graph delegation for documented length limits; alignment-contract analysis of vector accesses; "
+                     "minimum-length guard analysis against path-wise fixed-extent read summaries",
         "text": "Static, for all lengths: in every family with a reachable documented MESSAGEBYTES_MAX a message/ciphertext length above the "
                 "limit cannot reach a successful, output-producing return (directly or through every callee / dispatch target the length is "
                 "handed to) - this found the genuine defect F3 (IETF xor_ic guard wraps), repaired by a fix: commit; no vector-aligned "
                 "access goes through a pointer derived from a byte-pointer parameter unless every caller passes suitably aligned local / "
                 "global storage (loop-carried pointers followed with stride congruence); decoder stores/loads are capacity-dominated "
-                "(shared with C15). General absence of out-of-bounds accesses and arithmetic UB is NOT decided.",
+                "(shared with C15); wherever a function with a (buffer, length) parameter pair reads a constant extent of the buffer (a load at a "
+                "constant offset, or a callee reading a fixed number of bytes from buffer + k on every path) the branch facts establish "
+                "length >= that extent, and a remainder (buffer + k, length - d) handed on cannot wrap or overrun (R12.4: truncated-input "
+                "guards of seal_open / sign_open / secretstream pull / secretbox / AEAD combined modes); no fixed-size read at buffer + (length - r) "
+                "with r bounded below the read size by the branch facts (R12.5: whole-word loads at the tail of a word loop). General absence of out-of-bounds "
+                "accesses and arithmetic UB is NOT decided.",
     },
     "C13": {
-        "engine": "PathAI (E1) + sibling agreement (E7)",
-        "technique": "path-sensitive analysis of overlap normalisation before the first output write",
+        "engine": "PathAI (E1) + sibling agreement (E7) + read-after-write hazard analysis (E8) with scalar-evolution extents (E9)",
+        "technique": "path-sensitive analysis of overlap normalisation before the first output write; symbolic-offset read-after-write "
+                     "hazard analysis of the in-place cores",
         "text": "Static, for all pointer/length combinations: in the four overlap-tolerant detached secretbox functions (the easy and box "
                 "forms only delegate to them) the first write through the output is preceded on every path by memmove(out, in, len) with the "
                 "input pointer rebound, or by facts excluding both overlap directions; signing moves the message with memmove before any "
-                "other write to sm and opening writes m only with memmove / constant fill. This is the structural clause of C13; equality of "
-                "outputs for every overlap offset and hazards inside the cipher cores under in == out are not decided.",
+                "other write to sm and opening writes m only with memmove / constant fill (R13.1); in the AES-GCM generic encrypt / decrypt loops "
+                "and their block helpers no read through the input pointer can follow, within one generation of the loop index, a write through "
+                "the output pointer to an overlapping byte range (R13.2; helper extents from scalar evolution) - with in == out such a read sees "
+                "the function's own output. Equality of outputs for every overlap offset, the assembly cores and accesses that cannot be put in "
+                "linear form are not decided.",
     },
     "C14": {
         "engine": "scalar-evolution byte coverage (E9) + PathAI (E1, conditional constant propagation)",
@@ -120,24 +155,27 @@ CHECKS = {
         "text": "Static, for every length: sodium_memcmp / sodium_is_zero / sodium_compare read exactly [0, len) of each operand with unit "
                 "stride and an exact trip count (no early exit), crypto_verify_16/32/64 results depend on exactly bytes [0, N) of both operands "
                 "(SSE2 body; byte-wise body in the thorough/portable tier), and sodium_memzero / sodium_stackzero hand exactly the requested "
-                "(pointer, length) to a non-elidable wipe. The ordering value of sodium_compare and the carries of increment/add/sub are "
-                "not decided.",
+                "(pointer, length) to a non-elidable wipe; no carry of the C bodies of sodium_increment / add / sub / compare is identically zero "
+                "(R14.4, known-bits) and the loop-carried carry of each is recomputed from its previous value (R14.5). The ordering value of sodium_compare and the values of the carries of increment/add/sub are not decided.",
     },
     "C15": {
         "engine": "PathAI (E1)",
         "technique": "path-sensitive bounds-fact analysis of every output store / input load in the decoders",
         "text": "Static, for all inputs: every store through the decoders' output is at an index for which index < capacity holds on the "
                 "path, every load of the encoded text is below its stated length, capacity exhaustion can only end in a failing return "
-                "(never a truncated success), and success without an end pointer requires position == length. The accepted language, "
-                "round-trip and encoder length formulas are not decided.",
+                "(never a truncated success), and success without an end pointer requires position == length; sodium_base642bin reports success "
+                "only on a path holding W <= 4 and (accumulator & ((1 << W) - 1)) == 0 for the same leftover bit count W (R15.2: all trailing "
+                "bits were compared with zero). The rest of the accepted language, round-trip and encoder length formulas are not decided.",
     },
     "C16": {
-        "engine": "PathAI (E1) + affine evaluation",
-        "technique": "path-sensitive guard-before-write analysis + affine address evaluation",
+        "engine": "PathAI (E1) + affine evaluation + bit-flow (E11)",
+        "technique": "path-sensitive guard-before-write analysis + affine address evaluation + bit-mask taint of the position comparison",
         "text": "Static, for all inputs: sodium_pad writes nothing on any failing path and every write is preceded by blocksize != 0, the "
                 "overflow test and marker-index < max_buflen (reported length = that index + 1); every sodium_unpad load is at "
-                "buf + padded_buflen - 1 - i with i < blocksize after padded_buflen >= blocksize > 0, i.e. inside the final block. Marker "
-                "position, round-trip and the rejection set are not decided.",
+                "buf + padded_buflen - 1 - i with i < blocksize after padded_buflen >= blocksize > 0, i.e. inside the final block; every bit "
+                "(0..47) of the constant-time position comparison (i ^ xpadlen) can influence the stored padding bytes (R16.3: a comparison "
+                "narrowed to 32 bits treats positions that differ only above bit 31 as equal). Marker position, round-trip and the rejection "
+                "set are not decided.",
     },
     "C17": {
         "engine": "PathAI (E1) + affine layout evaluation (E10)",
@@ -145,7 +183,9 @@ CHECKS = {
         "text": "Static, for every requested size: in _sodium_malloc user_ptr + size equals base + 2*page + R(16+size), exactly that page is made "
                 "inaccessible, the 16-byte canary sits at user_ptr - 16 and the mapping is 3*page + R(16+size) bytes, all before the pointer is "
                 "returned; sodium_malloc fills with a non-zero constant; _free_aligned is reached only after the canary comparison returned 0 "
-                "and the mismatch arm cannot return; oversize and count*size overflow guards dominate the arithmetic and fail with ENOMEM/NULL; "
+                "and the mismatch arm cannot return; oversize and count*size overflow guards dominate the arithmetic and fail with ENOMEM/NULL, and the "
+                "oversize guard's margin covers the canary, the page rounding and the extra pages so the mapping size cannot wrap (R17.4-margin - "
+                "this derived the genuine defect F5: 14 sizes wrapped the total to 0 and failed with EINVAL; repaired by a fix: commit); "
                 "each sodium_mprotect_* applies its own PROT_* constant to (unprotected_ptr, stored size). That the OS faults on the guard "
                 "page is not decided.",
     },
@@ -157,7 +197,9 @@ CHECKS = {
                 "only post-processed by derivations from themselves; entropy/time/pid externals, RDRAND and the implementation slots are used "
                 "only inside randombytes/; randombytes_uniform returns 0 for n < 2, else (last draw) mod n on a path holding draw >= a "
                 "threshold that depends on n only, earlier draws being discarded only when below it; randombytes_buf_deterministic is one "
-                "ChaCha20-IETF call with the constant 'LibsodiumDRG' nonce. The threshold's value (2^32 mod n) is not decided.",
+                "ChaCha20-IETF call with the constant 'LibsodiumDRG' nonce; the implementation pointer is private to randombytes.c and assigned only "
+                "by randombytes_set_implementation (the caller's value) and, when still NULL, by randombytes_init_if_needed (R18.4: no close / "
+                "stir path can silently swap the source). The threshold's value (2^32 mod n) is not decided.",
     },
     "C19": {
         "engine": "PathAI (E1 typestate) + whole-library global-effect analysis (E2)",
@@ -176,7 +218,8 @@ CHECKS = {
                 "guarded-allocation APIs, allocator results are tested before any use and their failing arm only reaches failing exits; every "
                 "success exit has an established success fact for every fallible step on its path and no fallible result is dropped; the "
                 "*_str_verify functions report a match only via hash-succeeded and constant-time compare-equal; each allocation is released "
-                "at most once, never used after release, and is released/returned/owned at every exit. The thorough tier repeats this for the "
+                "at most once, never used after release, and is released/returned/owned at every exit; a released pointer that is also held in "
+                "caller-visible memory is cleared / re-initialised / released with its object before the function returns (R20.5). The thorough tier repeats this for the "
                 "posix_memalign and plain-malloc arms (HAVE_MMAP / HAVE_POSIX_MEMALIGN undefined).",
         "note": "libc model: mmap without MAP_FIXED returns MAP_FAILED or non-NULL; errno storage aliases nothing.",
     },
